@@ -17,6 +17,10 @@ pub assume_specification<P: core::str::pattern::Pattern>[ str::starts_with ](s: 
 pub open spec fn is_suffix_chars(a: Seq<char>, b: Seq<char>) -> bool {
     a.len() <= b.len() && forall|i: int| 0 <= i < a.len() ==> a[i] == b[b.len() - a.len() + i]
 }
+#[verifier::allow(undeclared_external_trait)]
+pub assume_specification<P: core::str::pattern::Pattern>[ str::ends_with ](s: &str, pat: P) -> (r: bool)
+    where for<'b> <P as core::str::pattern::Pattern>::Searcher<'b>: core::str::pattern::ReverseSearcher<'b>,
+    ensures r == is_suffix_chars(pat_seq::<P>(pat), s@);
 pub open spec fn opt_str_view(o: Option<&str>) -> Option<Seq<char>> { match o { Some(s) => Some(s@), None => None } }
 pub open spec fn strip_prefix_spec(s: Seq<char>, p: Seq<char>) -> Option<Seq<char>> {
     if is_prefix_chars(p, s) { Some(s.subrange(p.len() as int, s.len() as int)) } else { None }
